@@ -205,8 +205,11 @@ def oracle(ctx, widen=1):
             history.append(change)
             kinds2.add((change, k[0]))
             _, ref2, pol2, az2, s2, _ = gen_case(ctx.rng) if ctx.rng.random() < 0.5 else (None, ref, pol, az, s, None)
-            if np.linalg.norm(np.asarray(ub.UB, float) @ np.array(ref2)) < 1e-6:
+            W2 = np.linalg.norm(np.asarray(ub.UB, float) @ np.array(ref2))
+            if W2 < 1e-6:
                 continue
+            if s2 * W2 * W2 * math.sin(math.radians(pol2)) < 1e-5:      # stay clear of the inverse's 1e-7 "parallel" gate for the CURRENT UB as well
+                s2 = 1e-4 / (W2 * W2 * math.sin(math.radians(pol2)))
             bad = check_one(ub, ref2, pol2, az2, s2)
             if bad:
                 bad = f"after {' -> '.join(history)} on a calculator already used for both transforms, reference {tuple(round(x, 4) for x in ref2)} pol={pol2} az={az2}: {bad}"
